@@ -66,12 +66,12 @@ def tsan_reports(err, anchors):
         stacks = re.split(r'\n\s*\n', body)
         fr = []
         for st in stacks[:3]:
-            fs = re.findall(r'#\d+ (\S+).*?(/repo/src/uscxml/\S+?):\d+', st)
+            fs = re.findall(r'#\d+ (\S+).*?(%s/src/uscxml/\S+?):\d+' % re.escape(common.REPO), st)
             fs = [(f, os.path.basename(p)) for f, p in fs]
             if fs: fr.append(fs[0])
         sig = kind + ' | ' + ' <-> '.join('%s@%s' % (f.split('(')[0], p) for f, p in fr[:2])
         files = set(p for f, p in fr)
-        allfiles = set(os.path.basename(x) for x in re.findall(r'/repo/src/uscxml/\S+?(?=:\d)', body))
+        allfiles = set(os.path.basename(x) for x in re.findall(r'%s/src/uscxml/\S+?(?=:\d)' % re.escape(common.REPO), body))
         if allfiles & set(anchors): att[sig] += 1
         else: un[sig] += 1
     return att, un
